@@ -244,11 +244,6 @@ def _cmp_table_exact(m, im, what):
     return []
 
 
-def _double_exact(t):
-    """every float cell of a table the real reader returned, as the exact value of the double"""
-    return t
-
-
 def judge(case, impl, resp, is_err):
     op = case["op"]
     if "error" in resp and "out" not in resp:
